@@ -5,7 +5,16 @@ import random
 from ..core import tlc
 from ..core.lib import converter
 from ..core.runner import main
-from ..core.values import num, unnum
+from ..core.values import num as _num, unnum
+
+
+def num(x):
+    """Num of a non-negative integer; anything else (a codec returning a negative number, a float ...) becomes a
+    one-element sequence holding 999, which no Num ever equals, so the judge reports it instead of the harness dying"""
+    try:
+        return _num(x)
+    except Exception:
+        return [999]
 
 
 def lib_notation(s, w, pad=0, room=None):
